@@ -83,6 +83,25 @@ def error_returned(body, bb):
     return must_pass(body, bb, errs)
 
 
+import re
+
+
+def _split_top(s):
+    out, depth, cur = [], 0, ""
+    for ch in s:
+        if ch in "([{":
+            depth += 1
+        elif ch in ")]}":
+            depth -= 1
+        if ch == "," and depth == 0:
+            out.append(cur)
+            cur = ""
+        else:
+            cur += ch
+    out.append(cur)
+    return out
+
+
 def facts_keys(body, bb, roles):
     return set(f.key() for f in q.facts_at(body, bb, roles))
 
@@ -90,7 +109,15 @@ def facts_keys(body, bb, roles):
 def has_fact(body, bb, roles, *alternatives):
     """alternatives: (op, l, r) triples; l and r may contain `*` wildcards."""
     ks = facts_keys(body, bb, roles)
+    # equality calls are printed with sorted operands: try both orders of a pattern
+    alts = list(alternatives)
     for a in alternatives:
+        m = re.match(r"^PartialEq::(eq|ne)\((.*)\)$", str(a[1]))
+        if m:
+            parts = _split_top(m.group(2))
+            if len(parts) == 2:
+                alts.append((a[0], "PartialEq::%s(%s,%s)" % (m.group(1), parts[1], parts[0]), a[2]))
+    for a in alts:
         for k in ks:
             if k[0] == a[0] and q.wild(str(a[1]), str(k[1])) and (a[2] is None and k[2] is None or (a[2] is not None and k[2] is not None and q.wild(str(a[2]), str(k[2])))):
                 return True
